@@ -485,6 +485,9 @@ def shared(ctx, rule, transactions=False):
     sub = type(ctx)(ctx.prop, ctx.tier, ctx.seed, ctx.repo)
     c09.check_on_disconnected(sub)
     if transactions:
+        # ... and the reader of the next connection actually reads: the suspension flag of the close sequence is not left raised
+        c09.check_read_suspension(ctx, rule)
+    if transactions:
         c06.check_requests(sub)
     for o in sub.obligations:
         if (o["key"] in ("receive buffer clear", "thread stop") and o["construct"].startswith("HsmsProtocol")) or (transactions and o["rule"] == "C06.P1" and o["construct"].startswith("HsmsProtocol.send_")):
